@@ -89,14 +89,17 @@ def build(ks: list, cls=ResultSet, base: int = 0) -> ResultSet:
 
 def flat(rs) -> list:
     """Canonical form of a result set: per (rule, file) key, in pool order, the sorted tags."""
-    with NoTracing():  # everything is concrete here
-        out = []
-        for rule in RULES:
-            for f in FILES:
-                out.append(sorted(res.locations[0].start.line for res in dict.get(dict.get(rs, rule, {}), f, [])))
-        extra = [k for k in dict.keys(rs) if k not in RULES]
-        assert not extra, extra
-        return out
+    out = []
+    for rule in RULES:
+        by_file = rs.get(rule, {})
+        for f in FILES:
+            tags = [res.locations[0].start.line for res in by_file.get(f, [])]
+            with NoTracing():  # tags are concrete ints
+                tags = sorted(tags)
+            out.append(tags)
+    extra = [k for k in rs.keys() if k not in RULES]
+    assert not extra, extra
+    return out
 
 
 def spec_items(*key_lists) -> list:
@@ -132,9 +135,17 @@ def merge_ior(a: List[Item], b: List[Item], c: List[Item]) -> bool:
     """
     a, b, c = keys(a), keys(b), keys(c)
     m = ResultSet()
-    for part in (build(a, base=100), build(b, base=200), build(c, base=300)):
+    parts = (build(a, base=100), build(b, base=200), build(c, base=300))
+    for part in parts:
         m |= part
-    return fin(flat(m) == spec_items((a, 100), (b, 200), (c, 300)))
+    ok = flat(m) == spec_items((a, 100), (b, 200), (c, 300))
+    # the right-hand operands (in the real loaders: the cached parse of each result file) are not disturbed
+    ok = ok and flat(parts[0]) == spec_items((a, 100)) and flat(parts[1]) == spec_items((b, 200)) and flat(parts[2]) == spec_items((c, 300))
+    # ... and combining the same files again gives the same result
+    m2 = ResultSet()
+    for part in parts:
+        m2 |= part
+    return fin(ok and flat(m2) == spec_items((a, 100), (b, 200), (c, 300)))
 
 
 def merge_order_independent(a: List[Item], b: List[Item]) -> bool:
@@ -228,7 +239,10 @@ def process_loops(a, b, which):
             got = dd_api._process_results.__wrapped__(("f1", "f2"))
         finally:
             dd_results.DefectDojoResultSet.from_json = orig
-    return fin(flat(got) == exp)
+    ok = flat(got) == exp
+    # the per-file result sets (cached by the real loaders) are not disturbed by having been combined
+    ok = ok and flat(tab["f1"]) == spec_items((a, 100)) and flat(tab["f2"]) == spec_items((b, 200))
+    return fin(ok)
 
 
 def lookup(a: List[Item], r: bool, f: bool) -> bool:
@@ -252,7 +266,7 @@ def lookup(a: List[Item], r: bool, f: bool) -> bool:
 
 # ---------------------------------------------------------------- Sonar reader
 IDS = [7, 8, 9]
-STATUSES = ["OPEN", "TO_REVIEW", "CLOSED", "RESOLVED", "open"]
+STATUSES = ["OPEN", "TO_REVIEW", "CLOSED", "RESOLVED", "open", "REVIEWED"]  # REVIEWED: a closed hotspot
 
 
 def _sonar_entry(sel: int, status: int, use_rulekey: bool, has_key: bool, sl: int, so: int, el: int, eo: int, idx: int):
@@ -321,7 +335,7 @@ def sonar_reader_pair(s1: int, closed1: bool, s2: int, closed2: bool, hotspots: 
     disturbs the other one.
     post: _
     """
-    ents = [(s1, 2 if closed1 else 0, False, True, sl, so, sl, so + 1), (s2, 3 if closed2 else 1, hotspots, False, 7, 1, 7, 9)]
+    ents = [(s1, 2 if closed1 else 0, False, True, sl, so, sl, so + 1), (s2, (5 if hotspots else 3) if closed2 else 1, hotspots, False, 7, 1, 7, 9)]
     entries = [_sonar_entry(*e, idx=i) for i, e in enumerate(ents)]
     data = {"hotspots": entries} if hotspots else {"issues": entries, "hotspots": []}
     got, log = _run_sonar(data)
